@@ -1,13 +1,16 @@
 (** C14 -- field resolution never returns a value that contradicts a supplied field.
     Theorem-only file: every statement is closed by [exact] of a lemma of Proofs/C14.v.
-    [Fact_from_ymd] is proved (C14_fact_from_ymd, from the shared calendar lemmas); the facts about
-    the ISO-week functions of Model/Date.v ([Fact_from_isoywd], [Fact_iso_week_total],
-    [Fact_isoywd_total], [Fact_isoywd_roundtrip]: statements belonging to Proofs/Date.v, not available
-    yet) are visible premises of the theorems named [*_modulo_isoywd] / [*_modulo_iso]. *)
+    The constructor facts the resolution proofs were developed against are all proved from the
+    shared calendar lemmas: [Fact_from_ymd] (C14_fact_from_ymd) and the four facts about the ISO-week
+    functions of Model/Date.v ([Fact_from_isoywd], [Fact_iso_week_total], [Fact_isoywd_total],
+    [Fact_isoywd_roundtrip]: C14_fact_* below, from Proofs/DateIso.v / Proofs/Gregorian.v).  The
+    soundness, completeness and absence-of-traps theorems are therefore premise-free; the older
+    forms named [*_modulo_isoywd] / [*_modulo_iso], which carry the facts as visible premises, are
+    kept under their names (they are implied by the premise-free ones). *)
 From Coq Require Import ZArith List Bool.
 From V Require Import Base.Int Base.IO Model.TimeDelta.
 From V Require Model.Date Model.Time.
-From V Require Import Spec.Gregorian Model.DateTime Model.Parsed Proofs.C08Sweeps Proofs.C14 Proofs.C14Date.
+From V Require Import Spec.Gregorian Model.DateTime Model.Parsed Proofs.C08Sweeps Proofs.C14 Proofs.C14Date Proofs.C14Iso.
 Import ListNotations.
 Open Scope Z_scope.
 
@@ -198,6 +201,41 @@ Theorem C14_to_datetime_with_timezone_sound_modulo_isoywd : Fact_from_isoywd ->
 Proof. exact to_datetime_with_timezone_sound_modulo_isoywd. Qed.
 Print Assumptions C14_to_datetime_with_timezone_sound_modulo_isoywd.
 
+(** the ISO-week constructor fact, proved from the shared ISO-week lemmas (Proofs/DateIso.v) *)
+Theorem C14_fact_from_isoywd : forall y w wd dt,
+  in_i32 y = true -> 0 <= w <= u32_max -> 0 <= wd <= 6 ->
+  Date.from_isoywd_opt y w wd = Val (Some dt) ->
+  exists iw, Date.d_iso_week dt = Val iw /\ Date.iw_year iw = y /\ Date.iw_week iw = w /\
+             Date.d_weekday dt = Val wd.
+Proof. exact fact_from_isoywd. Qed.
+Print Assumptions C14_fact_from_isoywd.
+
+(** SOUNDNESS, premise-free: to_naive_date, to_naive_datetime_with_offset (both paths), to_datetime,
+    to_datetime_with_timezone never return a value that contradicts a supplied field. *)
+Theorem C14_to_naive_date_sound :
+  forall p d, date_fields_typed p -> to_naive_date p = Val (Ok d) -> date_sound p d.
+Proof. exact to_naive_date_sound. Qed.
+Print Assumptions C14_to_naive_date_sound.
+
+Theorem C14_to_naive_datetime_sound :
+  forall p off v, typed p -> in_i32 off = true ->
+  to_naive_datetime_with_offset p off = Val (Ok v) ->
+  date_sound p (nd_date v) /\ time_sound p (nd_time v) /\ ts_sound p v off.
+Proof. exact to_naive_datetime_sound. Qed.
+Print Assumptions C14_to_naive_datetime_sound.
+
+Theorem C14_to_datetime_sound :
+  forall p z, typed p -> to_datetime p = Val (Ok z) ->
+  zoned_sound p z /\ (p_offset p = None -> dz_off z = 0 /\ p_timestamp p <> None).
+Proof. exact to_datetime_sound. Qed.
+Print Assumptions C14_to_datetime_sound.
+
+Theorem C14_to_datetime_with_timezone_sound :
+  forall p tz z, typed p -> -86400 < tz < 86400 -> to_datetime_with_timezone p tz = Val (Ok z) ->
+  zoned_sound p z /\ dz_off z = tz.
+Proof. exact to_datetime_with_timezone_sound. Qed.
+Print Assumptions C14_to_datetime_with_timezone_sound.
+
 (** resolve_week_date (%U / %W forms) for all arguments: value or error kind, never a trap *)
 Theorem C14_resolve_week_date_spec : forall y week wd start,
   in_i32 y = true -> 0 <= week <= u32_max -> 0 <= wd <= 6 -> 0 <= start <= 6 ->
@@ -241,6 +279,55 @@ Theorem C14_to_naive_datetime_never_panics_modulo_iso :
   exists r, to_naive_datetime_with_offset p off = Val r.
 Proof. exact to_naive_datetime_total_modulo_iso. Qed.
 Print Assumptions C14_to_naive_datetime_never_panics_modulo_iso.
+
+(** the three facts about the ISO-week accessor and constructor, proved (Proofs/C14Iso.v) *)
+Theorem C14_fact_iso_week_total : forall y o d, repr y o d ->
+  exists iw, Date.d_iso_week d = Val iw /\ in_i32 (Date.iw_year iw) = true.
+Proof. exact fact_iso_week_total. Qed.
+Print Assumptions C14_fact_iso_week_total.
+Theorem C14_fact_isoywd_total : forall y w wd, in_i32 y = true -> 0 <= w <= u32_max -> 0 <= wd <= 6 ->
+  exists r, Date.from_isoywd_opt y w wd = Val r /\ (forall d, r = Some d -> exists y' o', repr y' o' d).
+Proof. exact fact_isoywd_total. Qed.
+Print Assumptions C14_fact_isoywd_total.
+Theorem C14_fact_isoywd_roundtrip : forall y o d iw, repr y o d -> Date.d_iso_week d = Val iw ->
+  Date.from_isoywd_opt (Date.iw_year iw) (Date.iw_week iw) (weekday_of_dn (dn_of_yo y o)) = Val (Some d).
+Proof. exact fact_isoywd_roundtrip. Qed.
+Print Assumptions C14_fact_isoywd_roundtrip.
+
+(** COMPLETENESS of to_naive_date, premise-free (statement as above) *)
+Theorem C14_to_naive_date_complete :
+  forall y o d iw p,
+  repr y o d -> Date.d_iso_week d = Val iw -> typed p -> date_sound p d ->
+  group_ok y (p_year p) (p_year_div_100 p) (p_year_mod_100 p) ->
+  group_ok (Date.iw_year iw) (p_isoyear p) (p_isoyear_div_100 p) (p_isoyear_mod_100 p) ->
+  combination_present y (Date.iw_year iw) p ->
+  to_naive_date p = Val (Ok d).
+Proof. exact to_naive_date_complete. Qed.
+Print Assumptions C14_to_naive_date_complete.
+
+(** the same with the ISO year of the date given by the calendar (Spec/Gregorian.v [iso_of_dn]) *)
+Theorem C14_to_naive_date_complete_iso :
+  forall y o d p,
+  repr y o d -> typed p -> date_sound p d ->
+  group_ok y (p_year p) (p_year_div_100 p) (p_year_mod_100 p) ->
+  group_ok (fst (iso_of_dn (dn_of_yo y o))) (p_isoyear p) (p_isoyear_div_100 p) (p_isoyear_mod_100 p) ->
+  combination_present y (fst (iso_of_dn (dn_of_yo y o))) p ->
+  to_naive_date p = Val (Ok d).
+Proof. exact to_naive_date_complete_iso. Qed.
+Print Assumptions C14_to_naive_date_complete_iso.
+
+(** ABSENCE OF TRAPS, premise-free: to_naive_date and to_naive_datetime_with_offset (repaired code)
+    return by value for every typed field state (and every i32 offset) *)
+Theorem C14_to_naive_date_never_panics :
+  forall p, typed p -> exists r, to_naive_date p = Val r /\ forall d, r = Ok d -> is_repr d.
+Proof. exact to_naive_date_never_panics. Qed.
+Print Assumptions C14_to_naive_date_never_panics.
+
+Theorem C14_to_naive_datetime_never_panics :
+  forall p off, typed p -> in_i32 off = true ->
+  exists r, to_naive_datetime_with_offset p off = Val r.
+Proof. exact to_naive_datetime_never_panics. Qed.
+Print Assumptions C14_to_naive_datetime_never_panics.
 
 Example C14_completeness_hypotheses_inhabited :
   repr 2014 365 (mkdate 2014 365) /\ typed ex_date_fields /\
